@@ -358,6 +358,10 @@ def rule_shared_job_retired(ctx):
     dedup = "self.in_flight.get(path)" in src
     cb = [c for c in calls_in(sub.node) if isinstance(c.func, ast.Attribute) and c.func.attr == "add_done_callback" and ast.unparse(c.func.value).endswith("future")]
     ctx.check(dedup and len(cb) == 1, sub.fq, "an in-flight job is shared, and retired by a done-callback of its future", "a finished job is not taken out of in_flight (or jobs are no longer shared)", "in_flight.get + add_done_callback")
+    names = [callee_name(c) + ":" + ast.unparse(c.func.value) for c in calls_in(sub.node) if isinstance(c.func, ast.Attribute)]
+    ctx.check("put_nowait:self.queue" in names and "set:self.wake" in names, sub.fq, "a new job is queued and the job loop is woken", f"calls: {[n for n in names if 'queue' in n or 'wake' in n]}: the job is registered as in flight but nobody will ever run it, so every request for that path waits for ever", "queue.put_nowait(job); wake.set()")
+    sh = ctx.prog.func("hash_queue.HashQueue.shutdown")
+    ctx.check(any(isinstance(l, ast.For) and any(isinstance(c.func, ast.Attribute) and c.func.attr == "cancel" and ast.unparse(c.func.value).endswith("future") for c in calls_in(l)) for l in ast.walk(sh.node)), sh.fq, "at shutdown the futures of jobs that never started are cancelled", "awaiters of a queued job hang at shutdown", "for job in ...: job.future.cancel()")
     jd = ctx.prog.func("hash_queue.HashQueue._job_done")
     top = [st_ for st_ in jd.node.body if "self.in_flight.pop(path" in ast.unparse(st_) and isinstance(st_, ast.Expr)]
     ctx.check(len(top) == 1, jd.fq, "the callback retires the job unconditionally", "the job is retired only for some outcomes", "in_flight.pop at the top level of the callback")
@@ -400,11 +404,13 @@ RULES = [
     Rule("R-C16-5", "failure mapping", rule_failure_mapping, min_instances=5),
     Rule("R-C16-6", "peers cannot wedge the server", rule_peers, min_instances=5),
     Rule("R-C16-8", "replies may be fragmented; connection state is per connection", rule_fragmentation, min_instances=5),
-    Rule("R-C16-9", "a shared hash job is retired however its task ends", rule_shared_job_retired, min_instances=5),
+    Rule("R-C16-9", "a shared hash job is retired however its task ends", rule_shared_job_retired, min_instances=7),
     Rule("R-C16-7", "pending futures are completed only when not cancelled", rule_future_typestate, min_instances=4),
 ]
 
 MUTANTS = [
+    Mutant("hash-job-registered-not-queued", "hash_queue.py", in_function("HashQueue.submit", replace_once("        self.queue.put_nowait(job)\n", "")), ("R-C16-9",)),
+    Mutant("shutdown-leaves-queued-futures", "hash_queue.py", in_function("HashQueue.shutdown", replace_once("            job.future.cancel()\n", "            pass\n")), ("R-C16-9",)),
     Mutant("cancelled-hash-task-leaves-zombie", "executor.py", in_function("Executor.run_hash_job", replace_once("            if not hash_job.future.done():\n                hash_job.future.cancel()\n", "")), ("R-C16-9",)),
     Mutant("hash-job-never-retired", "hash_queue.py", in_function("HashQueue.submit", replace_once("        job.future.add_done_callback(functools.partial(self._job_done, path))\n", "")), ("R-C16-9",)),
     Mutant("hash-waiter-unshielded", "builder.py", in_function("Builder.run_promoted_hash_jobs", replace_once("await asyncio.shield(job.future)", "await job.future")), ("R-C16-9",)),
